@@ -13,6 +13,13 @@ let parse_op (s : string) : C18Model.op option * (int * int) option =
   | ["wr"; a] -> (match split_on ',' a with
       | [k; i; v] -> (Some (C18Model.OWrite (nat_of_int (int_of_string k), nat_of_int (int_of_string i), z_of_int (int_of_string v))), None)
       | _ -> failwith "wr")
+  | ["ser"] | ["ser"; ""] -> (Some (C18Model.OSer []), None)
+  | ["ser"; a] ->
+      let ls = Stdlib.List.map (fun l -> match split_on '.' l with
+        | [t; h] -> (z_of_int (int_of_string t), bytes_of_hex h)
+        | [t] -> (z_of_int (int_of_string t), [])
+        | _ -> failwith "ser") (split_on '|' a) in
+      (Some (C18Model.OSer ls), None)
   | _ -> failwith ("c18 op: " ^ s)
 
 let run (id : string) (ops : string list) (out : out_channel) =
